@@ -27,6 +27,29 @@
 #include "logger.h"
 
 #include <cerrno>
+#include <cstdlib>
+#include <sys/syscall.h>
+#include <unistd.h>
+
+// Short writes are legal kernel behaviour (large requests, quotas, network file systems): with VERIF_SHORT_WRITES=k every
+// pwrite of more than k bytes writes only k. The files must come out the same (file_write's loop resumes where it stopped).
+extern "C" ssize_t
+pwrite(int fd, const void* buf, size_t count, off_t off)
+{
+    static long k = -2;
+    if (k == -2) {
+        const char* e = getenv("VERIF_SHORT_WRITES");
+        k = e ? atol(e) : -1;
+    }
+    if (k > 0 && count > (size_t)k)
+        count = (size_t)k;
+    return (ssize_t)syscall(SYS_pwrite64, fd, buf, count, off);
+}
+extern "C" ssize_t
+pwrite64(int fd, const void* buf, size_t count, off_t off)
+{
+    return pwrite(fd, buf, count, off);
+}
 #include <cstdint>
 #include <cstdio>
 #include <cstdlib>
